@@ -18,7 +18,10 @@ for cfg in ("default", "nodefault", "quic-only", "metrics-only"):
     prog = Program(fdir)
     for k, f in prog.fns.items():
         if f.kind in ("Fn", "AssocFn"):
-            fns[k] = {"file": f.file, "sig": fn_sig(f), "print": fn_print(prog, f), "nblocks": len(prog.body_of(f).blocks)}
+            # bodies differ between build configurations (feature-gated code): fingerprint and size are kept per configuration
+            e = fns.setdefault(k, {"file": f.file, "sig": fn_sig(f), "print": {}, "nblocks": {}})
+            e["print"][cfg] = fn_print(prog, f)
+            e["nblocks"][cfg] = len(prog.body_of(f).blocks)
     for c in ("redproxy_rs", "milu"):
         for a in prog.items[c]["adts"]:
             adts[c + "::" + a["path"]] = [[v["name"], [[fl["name"], prog.types[c][fl["ty"]]["s"]] for fl in v["fields"]]] for v in a["variants"]]
